@@ -12,7 +12,7 @@ Definition cs_together (c : column) : Prop := fld 1 (c_T c) = [] <-> fld 2 (c_T 
 
 Lemma mysql_fill_together v T : (fld 1 T = [] <-> fld 2 T = []) -> mysql_fill v T = (fld 1 T, fld 2 T).
 Proof.
-  unfold mysql_fill. destruct (fld 1 T) as [|a x], (fld 2 T) as [|b y]; intros [A B]; try reflexivity.
+  unfold mysql_fill, fill_pair. destruct (fld 1 T) as [|a x], (fld 2 T) as [|b y]; intros [A B]; try reflexivity.
   - discriminate (A eq_refl).
   - discriminate (B eq_refl).
 Qed.
@@ -78,7 +78,7 @@ Lemma mysql_fill_local v v' T :
   assoc (fld 1 T) (mv_ch2co v) = assoc (fld 1 T) (mv_ch2co v') ->
   assoc (fld 2 T) (mv_co2ch v) = assoc (fld 2 T) (mv_co2ch v') ->
   mysql_fill v T = mysql_fill v' T.
-Proof. intros A B. unfold mysql_fill. rewrite A, B. reflexivity. Qed.
+Proof. intros A B. unfold mysql_fill, fill_pair. rewrite A, B. reflexivity. Qed.
 
 Lemma mysql_column_change_local v v' t from to :
   assoc (fld 1 (c_T to)) (mv_ch2co v) = assoc (fld 1 (c_T to)) (mv_ch2co v') ->
@@ -91,10 +91,10 @@ Qed.
 (** a lone charset is compared together with its default collation, a lone collation with its charset *)
 Lemma mysql_fill_lone_charset v T d :
   fld 1 T <> [] -> fld 2 T = [] -> assoc (fld 1 T) (mv_ch2co v) = Some d -> mysql_fill v T = (fld 1 T, d).
-Proof. intros A B C. unfold mysql_fill. rewrite B, C. destruct (fld 1 T); [contradiction|reflexivity]. Qed.
+Proof. intros A B C. unfold mysql_fill, fill_pair. rewrite B, C. destruct (fld 1 T); [contradiction|reflexivity]. Qed.
 Lemma mysql_fill_lone_collation v T d :
   fld 1 T = [] -> fld 2 T <> [] -> assoc (fld 2 T) (mv_co2ch v) = Some d -> mysql_fill v T = (d, fld 2 T).
-Proof. intros A B C. unfold mysql_fill. rewrite A, C. destruct (fld 2 T); [contradiction|reflexivity]. Qed.
+Proof. intros A B C. unfold mysql_fill, fill_pair. rewrite A, C. destruct (fld 2 T); [contradiction|reflexivity]. Qed.
 
 (** exact bits of ColumnChange for every variant *)
 Lemma mysql_column_bits_v v t c c' :
@@ -121,3 +121,22 @@ Lemma mysql_no_check_error v from to :
 Proof.
   intros C N. unfold mysql_table_attr_diff_v. rewrite C. destruct (t_checks to); [contradiction|reflexivity].
 Qed.
+
+(** ** history through the desired graph: defaultCharset / defaultCollate append what they found to
+    the attributes of the desired column, so a later diff sees the completed pair *)
+Lemma fill_pair_idempotent v p : fill_pair v (fill_pair v p) = fill_pair v p.
+Proof.
+  destruct p as [cs co]. destruct cs as [|a cs], co as [|b co]; try reflexivity.
+  - simpl. destruct (assoc (b :: co) (mv_co2ch v)) as [x|] eqn:E; simpl.
+    + destruct x as [|c x]; simpl; try rewrite E; reflexivity.
+    + try rewrite E. reflexivity.
+  - simpl. destruct (assoc (a :: cs) (mv_ch2co v)) as [x|] eqn:E; simpl.
+    + destruct x as [|c x]; simpl; try rewrite E; reflexivity.
+    + try rewrite E. reflexivity.
+Qed.
+
+Definition w_v57 : mysql_variant := mkMyVariant false false [([117;116;102;56;109;98;52]%N, [117;116;102;56;109;98;52;95;103;101;110;101;114;97;108;95;99;105]%N)] [].
+Definition w_v80 : mysql_variant := mkMyVariant true true [([117;116;102;56;109;98;52]%N, [117;116;102;56;109;98;52;95;48;57;48;48;95;97;105;95;99;105]%N)] [].
+Lemma fill_pair_other_server :
+  fill_pair w_v80 (fill_pair w_v57 ([117;116;102;56;109;98;52]%N, [])) <> fill_pair w_v80 ([117;116;102;56;109;98;52]%N, []).
+Proof. vm_compute. discriminate. Qed.
